@@ -19,6 +19,8 @@ pub struct FaultSpec {
     pub cancel_after_polls: Option<u32>,
     /// turn the j-th child poll of the run into a panic (0 = none)
     pub panic_at_child_poll: u32,
+    /// turn the j-th invocation of a user closure (for_each / map / try_for_each) into a panic (0 = none)
+    pub panic_at_closure_call: u32,
     /// run without any drawn fault (for the fault-free reference execution)
     pub no_faults: bool,
 }
@@ -34,6 +36,7 @@ pub struct RunResult {
     pub describe: String,
     pub root_polls: u32,
     pub child_polls: u32,
+    pub closure_calls: u32,
     pub narration: Option<Vec<String>>,
 }
 
@@ -54,6 +57,7 @@ pub fn run(prop: &'static str, ch: Choices, faults: FaultSpec, narrate: bool) ->
     let std_cfg = cfg!(feature = "cfg-std");
     let mut w = World::new(ch, prop, std_cfg);
     w.panic_at_child_poll = faults.panic_at_child_poll;
+    w.panic_at_closure_call = faults.panic_at_closure_call;
     world::install(w);
     #[cfg(feature = "cfg-std")]
     futures_concurrency::__verif_sync::set_sync_hook(Some(leaf::sync_hook));
@@ -99,6 +103,7 @@ pub fn run(prop: &'static str, ch: Choices, faults: FaultSpec, narrate: bool) ->
         describe,
         root_polls: w.nodes.first().map(|n| n.polls).unwrap_or(0),
         child_polls: w.child_poll_counter,
+        closure_calls: w.closure_call_counter,
         narration,
     }
 }
@@ -128,6 +133,7 @@ impl Exec {
                     crate::roots::build_flat(*fam, *cont, &kids)
                 }
                 Shape::Nested { kind } => crate::nested::build(*kind, &plan),
+                Shape::Dyn { tree } => crate::dynnest::build(tree, &plan),
                 Shape::Group { .. } => crate::group::build(&plan),
                 Shape::Co { spec } => crate::costream::build(spec, &plan),
             }
@@ -335,6 +341,7 @@ impl Exec {
             w.frame.clear();
             let gen = w.gen_newest;
             let r = w.node_mut(ROOT);
+            r.frame.clear();
             r.in_poll = true;
             r.polls += 1;
             w.emit(Ev::PollBegin { node: ROOT, gen });
@@ -416,6 +423,7 @@ impl Exec {
         if out.res != Res::Pending {
             w.emit(Ev::RootOut { res: out.res, key: out.key, vals: out.vals.clone() });
         }
+        w.frame = w.node(ROOT).frame.clone();
         crate::oracle::on_root_poll_end(w, out);
     }
 
